@@ -277,9 +277,14 @@ class Gen:
             cols = " ".join(self.ident() for _ in range(r.randrange(0, 3)))
             mat = r.choice(["", "", " mat", " notmat"])
             if r.random() < 0.2:
-                # CommonTableExpression::from_select: name and columns derived from the SELECT
-                cs.append("(ctefs %s%s)" % (self.select(depth - 1), mat))
-                continue
+                # CommonTableExpression::from_select: name and columns derived from the SELECT.  Only when its first
+                # FROM item is a plain table: otherwise no name is derived and rendering panics on the missing name -
+                # but only if the statement is rendered at all, which the eager model reader cannot express
+                sel = self.select(depth - 1)
+                k = sel.find("(from ")
+                if k >= 0 and (sel.startswith("(from (t ", k) or sel.startswith("(from (ta ", k)):
+                    cs.append("(ctefs %s%s)" % (sel, mat))
+                    continue
             cs.append("(cte %s (cols%s) %s%s)" % (self.ident(), " " + cols if cols else "", self.query(depth - 1, False), mat))
         if "(recursive)" in cs and r.random() < 0.4:
             cs.append("(search %s %s %s)" % (r.choice(["breadth", "depth"]), self.expr(0), self.ident()))
